@@ -9,7 +9,8 @@ THEOREMS = ["C19_activate_refuses_known_or_unhostable", "C19_activate_spawns_one
             "C19_deactivate_removes_everywhere_and_stops", "C19_leave_purges_hosted",
             "C19_spawn_registers_everywhere", "C19_quiescent_history_refines_spec", "C19_by_kind_lists_the_activation",
             "C19_oracle_holds_of_model", "C19_premises_needed",
-            "C19_join_that_spreads_everyone_learns", "C19_join_that_spreads_views", "C19_stagger_oracle_holds_of_model"]
+            "C19_join_that_spreads_everyone_learns", "C19_join_that_spreads_views", "C19_stagger_oracle_holds_of_model",
+            "C19_join_that_spreads_no_second_activation"]
 RULE = ("histories of activate / deactivate / cluster-spawn / join / leave run on 1..4 real cluster.Cluster instances in "
         "one process, joined by an in-memory actor.Remoter (every cross-node message passes a protobuf encode/decode and "
         "the destination engine's SendLocal), do-nothing providers, membership injected by the harness as *cluster.Members "
